@@ -10,8 +10,8 @@
       flag is 1; nothing else of the script mentions the path;
     * `write_path_and_content_opaque`: for literal path and content (blanks included, no `$`/backquote)
       both are read back by bash byte for byte (Lemmas/Quote.lean);
-    * `read_line`, `exists_line`: `read` is `h="$(cat -- "<p>")"` (quoted path, `--` ends the options,
-      so a leading dash in a path is data), `exists` is `[ -e "<p>" ]` turned into 1/0;
+    * `read_line`, `exists_line`: `read` is `h="$(cat < "<p>")"` (quoted path, opened by the shell: the path is
+      no operand of `cat`, so a leading dash or the path "-" is data), `exists` is `[ -e "<p>" ]` turned into 1/0;
     * a non-string path/content or non-bool append flag is an error, never a script.
   That `$( )` strips ALL trailing newlines (known finding read-strips-trailing-newlines) and what
   the redirections do to the file system are bash semantics, decided by the execution oracle.
@@ -53,11 +53,11 @@ theorem write_rejects_nonstring_data (path data : Expr) (append : Option Expr) (
   | error m => left; exact ⟨m, by simp [bind, hr]⟩
   | panic m => right; exact ⟨m, by simp [bind, hr]⟩
 
-/-- **`read`**: one assignment of `$(cat -- "<path>")` to a fresh helper -/
+/-- **`read`**: one assignment of `$(cat < "<path>")` to a fresh helper -/
 theorem read_line (path : String) (s : St) :
     readFile path s = .ok (varEvalString s s!"_h{s.varCounter}" false,
       { s with varCounter := s.varCounter + 1,
-               code := .assign (varName s s!"_h{s.varCounter}" false) s!"$(cat -- \"{path}\")" :: s.code }) := by
+               code := .assign (varName s s!"_h{s.varCounter}" false) s!"$(cat < \"{path}\")" :: s.code }) := by
   simp [readFile, bind, nextHelperVar, varAssignment, varEvaluation, Tr.get, addLine, Tr.modify, pure,
     varEvalString, varName, inFunction]
 
